@@ -56,6 +56,12 @@ where K: Kernel<D>, U: DataType, V: DataType {
 fn stub_format(_a: core::fmt::Arguments<'_>) -> String {
     String::with_capacity(1)
 }
+fn stub_display(_e: &DelaunayTriangulationConstructionError, _f: &mut core::fmt::Formatter<'_>) -> core::fmt::Result {
+    Ok(())
+}
+fn stub_display_v(_e: &DelaunayValidationError, _f: &mut core::fmt::Formatter<'_>) -> core::fmt::Result {
+    Ok(())
+}
 fn stub_var_os<K: AsRef<std::ffi::OsStr>>(_k: K) -> Option<std::ffi::OsString> {
     None
 }
@@ -68,6 +74,8 @@ fn stub_var_os<K: AsRef<std::ffi::OsStr>>(_k: K) -> Option<std::ffi::OsString> {
 #[kani::stub(DelaunayTriangulation::construction_shuffle_seed, stub_seed)]
 #[kani::stub(alloc::fmt::format, stub_format)]
 #[kani::stub(std::env::var_os, stub_var_os)]
+#[kani::stub(<DelaunayTriangulationConstructionError as core::fmt::Display>::fmt, stub_display)]
+#[kani::stub(<DelaunayValidationError as core::fmt::Display>::fmt, stub_display_v)]
 fn construction_retry_gate_contract() {
     type Dt2 = DelaunayTriangulation<FastKernel<f64>, (), (), 2>;
     BUILT.store(0, AOrd::Relaxed);
